@@ -742,6 +742,15 @@ impl<T: GseDecapMemory, C: CrcCalculator, MHEM: MandatoryHeaderExtensionManager>
                 Err(err) => Err((DecapError::ErrorMemory(err), pkt_len)),
             };
         }
+        // the reassembled length is a 16 bits counter, as the total length it will be compared with:
+        // a longer PDU can not be valid
+        if decap_context.pdu_len as usize + calculed_pdu_len > u16::MAX as usize {
+            return match self.memory.provision_storage(pdu) {
+                Ok(()) => Err((DecapError::ErrorTotalLength, pkt_len)),
+                // the memory refuses the buffer: hand it to the caller
+                Err(err) => Err((DecapError::ErrorMemory(err), pkt_len)),
+            };
+        }
         pdu_buffer[..calculed_pdu_len].copy_from_slice(&buffer[offset..offset + calculed_pdu_len]);
 
         // save state
@@ -819,8 +828,9 @@ impl<T: GseDecapMemory, C: CrcCalculator, MHEM: MandatoryHeaderExtensionManager>
             )
         };
 
-        let total_len_received = (pdu_len + PROTOCOL_LEN + first_label_len) as u16;
-        if decap_context.total_len != total_len_received {
+        // compared without truncation: a PDU longer than 65535 bytes never matches
+        let total_len_received = pdu_len + PROTOCOL_LEN + first_label_len;
+        if decap_context.total_len as usize != total_len_received {
             return match self.memory.provision_storage(pdu) {
                 Ok(()) => Err((DecapError::ErrorTotalLength, pkt_len)),
                 // the memory refuses the buffer: hand it to the caller
